@@ -123,12 +123,21 @@ class Sim:
         self.name = name
         self.fac, self.kind = tab[name]
         self.metric = self.fac()
-        self.initial = self.metric.get()
+        self.usable = True
+        try:
+            self.initial = self.metric.get()
+        except Exception:
+            # a metric whose fresh instance cannot even report a value is outside the quantifier (counted as discarded)
+            self.usable = False
+            self.initial = None
         self.wrappers = []
         self.calls = []          # (wrapper index, pair repr)
         self.discarded = 0
 
     def apply(self, op):
+        if not self.usable:
+            self.discarded += 1
+            return None
         try:
             return self._apply(op)
         except _MetricBroken as e:
